@@ -63,6 +63,55 @@ fn check_results(what: &str, res: &[kyrodb_engine::hnsw_index::SearchResult], k:
     }
 }
 
+/// One persistent helper thread per process: `arm(n)` returns once the helper is spinning on the
+/// go flag and has been released; it raises CANCEL_FLAG after `n` spins.  No thread is created
+/// per attempt (thread creation under ASan is slow and made the campaign time out).
+static CANCEL_FLAG: AtomicBool = AtomicBool::new(false);
+static CANCEL_SPINS: std::sync::atomic::AtomicU32 = std::sync::atomic::AtomicU32::new(0);
+static CANCEL_STATE: std::sync::atomic::AtomicU32 = std::sync::atomic::AtomicU32::new(0); // 0 idle, 1 requested, 2 armed, 3 go, 4 done
+struct Canceller {
+    thread: std::thread::Thread,
+}
+impl Canceller {
+    fn arm(&self, spins: u32) {
+        CANCEL_FLAG.store(false, Ordering::Release);
+        CANCEL_SPINS.store(spins, Ordering::Release);
+        CANCEL_STATE.store(1, Ordering::Release);
+        self.thread.unpark();
+        while CANCEL_STATE.load(Ordering::Acquire) != 2 {
+            std::thread::yield_now();
+        }
+        CANCEL_STATE.store(3, Ordering::Release);
+    }
+    fn wait_done(&self) {
+        while CANCEL_STATE.load(Ordering::Acquire) != 4 {
+            std::thread::yield_now();
+        }
+        CANCEL_STATE.store(0, Ordering::Release);
+    }
+}
+fn canceller() -> &'static Canceller {
+    static CELL: std::sync::OnceLock<Canceller> = std::sync::OnceLock::new();
+    CELL.get_or_init(|| {
+        let h = std::thread::spawn(|| loop {
+            while CANCEL_STATE.load(Ordering::Acquire) != 1 {
+                std::thread::park_timeout(std::time::Duration::from_millis(50));
+            }
+            let spins = CANCEL_SPINS.load(Ordering::Acquire);
+            CANCEL_STATE.store(2, Ordering::Release);
+            while CANCEL_STATE.load(Ordering::Acquire) != 3 {
+                std::hint::spin_loop();
+            }
+            for _ in 0..spins {
+                std::hint::spin_loop();
+            }
+            CANCEL_FLAG.store(true, Ordering::Release);
+            CANCEL_STATE.store(4, Ordering::Release);
+        });
+        Canceller { thread: h.thread().clone() }
+    })
+}
+
 fuzz_target!(|data: &[u8]| {
     once_init();
     ITER.fetch_add(1, Ordering::Relaxed);
@@ -84,7 +133,7 @@ fuzz_target!(|data: &[u8]| {
             if u.is_empty() {
                 break;
             }
-            match u.int_in_range(0u8..=9).unwrap_or(0) {
+            match u.int_in_range(0u8..=11).unwrap_or(0) {
                 0..=3 => {
                     // add: duplicate vector with probability 1/3, duplicate id with probability 1/4
                     let v = if !pool.is_empty() && u.ratio(1u8, 3u8).unwrap_or(false) { pool[u.int_in_range(0..=pool.len() - 1).unwrap_or(0)].clone() } else { vec_from(&mut u, dim, normalise) };
@@ -149,6 +198,41 @@ fuzz_target!(|data: &[u8]| {
                     // the next search on this thread must still be valid
                     if let Ok(res) = index.knn_search_with_ef(&q, 3, None) {
                         check_results("search after cancellation", &res, 3, &added);
+                    }
+                }
+                10 | 11 => {
+                    // cancellation IN FLIGHT: the helper is already running and released by a go
+                    // flag right before the search starts, then raises the cancel flag after a
+                    // swept number of spins (four attempts, delay doubling); afterwards the same
+                    // thread searches a SECOND, two-vector index (thread-local scratch left
+                    // behind by the cancelled search must not be trusted on a smaller graph)
+                    let q = vec_from(&mut u, dim, normalise);
+                    let base_spins = u.int_in_range(1u32..=600).unwrap_or(40);
+                    let live = index.len().min(10);
+                    for attempt in 0..4u32 {
+                        let spins = base_spins << attempt;
+                        canceller().arm(spins);
+                        if let Ok(res) = index.knn_search_with_ef_cancel(&q, 10, Some(10_000), Some(&CANCEL_FLAG)) {
+                            check_results("search cancelled in flight", &res, 10, &added);
+                            if res.len() < live {
+                                C[7].fetch_add(1, Ordering::Relaxed);
+                            }
+                        }
+                        canceller().wait_done();
+                    }
+                    C[6].fetch_add(1, Ordering::Relaxed);
+                    if let Ok(mut tiny) = HnswVectorIndex::new_with_params(dim, 4, metric, 4, 8, no_check) {
+                        let a = vec_from(&mut u, dim, normalise);
+                        let mut tiny_added: std::collections::HashSet<u64> = Default::default();
+                        if tiny.add_vector(7, &a).is_ok() {
+                            tiny_added.insert(7);
+                        }
+                        if tiny.add_vector(8, &q).is_ok() {
+                            tiny_added.insert(8);
+                        }
+                        if let Ok(res) = tiny.knn_search_with_ef(&q, 3, None) {
+                            check_results("search on a second tiny index after an in-flight cancellation", &res, 3, &tiny_added);
+                        }
                     }
                 }
                 _ => {
